@@ -40,7 +40,8 @@ Record cfg := {
   ae_sb : bool; de_sb : bool;     (* sidebar.j2 *)
   ae_tb : bool; de_tb : bool;     (* type_base.j2 *)
   ae_ns : bool;                   (* Namespace.j2 *)
-  lk_up : bool                    (* type links are prefixed with '../' per namespace level of the page (Namespace.j2 -> up) *)
+  lk_up : bool;                   (* type links are prefixed with '../' per namespace level of the page (Namespace.j2 -> up) *)
+  lk_us : bool                    (* no link is written for a type that is not listed (short name `_`; halves of a service named `_`) *)
 }.
 
 Definition n_type_info : str := Eval vm_compute in lit "type_info.j2".
@@ -60,16 +61,20 @@ Definition faithful_cfg : cfg := {|
   ae_tb := autoescape_selected n_type_base;
   de_tb := autoescape_selected n_type_base || docs_escaped_type_base;
   ae_ns := autoescape_selected n_namespace;
-  lk_up := links_up_prefix |}.
+  lk_up := links_up_prefix;
+  lk_us := links_skip_us |}.
 
 (* what the property asks for with the least change: documentation sinks escaped, nothing else touched *)
 Definition conformant_cfg : cfg := {|
   ae_ti := false; de_ti := true; ae_ni := false; de_ni := true; ae_sb := false; de_sb := true;
-  ae_tb := false; de_tb := true; ae_ns := false; lk_up := links_up_prefix |}.
+  ae_tb := false; de_tb := true; ae_ns := false; lk_up := links_up_prefix; lk_us := links_skip_us |}.
 
 Definition set_lk_up (c : cfg) (v : bool) : cfg :=
   {| ae_ti := ae_ti c; de_ti := de_ti c; ae_ni := ae_ni c; de_ni := de_ni c; ae_sb := ae_sb c; de_sb := de_sb c;
-     ae_tb := ae_tb c; de_tb := de_tb c; ae_ns := ae_ns c; lk_up := v |}.
+     ae_tb := ae_tb c; de_tb := de_tb c; ae_ns := ae_ns c; lk_up := v; lk_us := lk_us c |}.
+Definition set_lk_us (c : cfg) (v : bool) : cfg :=
+  {| ae_ti := ae_ti c; de_ti := de_ti c; ae_ni := ae_ni c; de_ni := de_ni c; ae_sb := ae_sb c; de_sb := de_sb c;
+     ae_tb := ae_tb c; de_tb := de_tb c; ae_ns := ae_ns c; lk_up := lk_up c; lk_us := v |}.
 
 Definition cfg_docs_escaped (c : cfg) : bool := de_ti c && de_ni c && de_sb c && de_tb c.
 
@@ -412,6 +417,11 @@ Definition disp_inst (di : dinst) : list piece :=
 Definition tx_markup (b : bool) (ps : list piece) : list piece :=
   if b then [PText (markupsafe_escape (render ps))] else ps.
 
+(* the name whose last component type_info.j2 inspects before writing a link: the type, or the service for its halves *)
+Definition link_name (t : tinfo) : str := if ti_has_parent t then ti_full_namespace t else ti_full_name t.
+Definition last_component (s : str) : str := rev (take_while (fun c => negb (c =? 46)) (rev s)).
+Definition linked (us : bool) (c : cinfo) : bool := negb (us && str_eqb (last_component (link_name (ci_t c))) s_us).
+
 Section Emit.
 Variable cf : cfg.
 
@@ -446,8 +456,10 @@ Fixpoint emit_ty (up : str) (st : ung) (t : ty) (attr_name : str) (nested : bool
       let head :=
         toggle_anchor b s_jsvoid id s_toggle2
         ++ (if nested
-            then elem t_a [(k_href, (if lk_up cf then tx b up else []) ++ tx b (filter_url_from_type (ci_t c)))]
-                      [PText (version_text b (ci_t c))]
+            then (if linked (lk_us cf) c
+                  then elem t_a [(k_href, (if lk_up cf then tx b up else []) ++ tx b (filter_url_from_type (ci_t c)))]
+                            [PText (version_text b (ci_t c))]
+                  else [PText (version_text b (ci_t c))])
                  ++ [PText (s_sp ++ tx b attr_name)]
             else [PText (version_text b (ci_t c) ++ s_sp ++ tx b attr_name)])
         ++ match ci_port c with
@@ -499,7 +511,9 @@ with emit_attrs (up : str) (st : ung) (a : attrs) {struct a} : ung * list piece 
        ++ doc_pre (de_ti cf) [(k_class, s_docs)] doc ++ snd r2)
   end.
 
-Definition ns_id (name : str) : str := str_replace1 46 s_us name.
+Definition s_ddns : str := Eval vm_compute in lit "--ns".
+Definition ns_id (name : str) : str :=
+  if ns_ids_dashed then str_replace1 46 [45] name ++ s_ddns else str_replace1 46 s_us name.
 
 Fixpoint emit_types (up : str) (st : ung) (ts : list (str * ty)) : ung * list piece :=
   match ts with
@@ -813,10 +827,12 @@ Definition w_site_ok : list nst :=
 (* 8. universal link theorem: vocabulary                                                     *)
 (* ---------------------------------------------------------------------------------------- *)
 (* the composite types for which generate_type_info writes a type link while rendering t (the nested occurrences) *)
+Section Refs.
+Variable us : bool.   (* lk_us of the configuration *)
 Fixpoint refs_ty (t : ty) (nested : bool) {struct t} : list cinfo :=
   match t with
   | Prim _ => []
-  | Comp c a => (if nested then [c] else []) ++ refs_attrs a
+  | Comp c a => (if nested && linked us c then [c] else []) ++ refs_attrs a
   | Arr _ _ _ e => refs_ty e true
   end
 with refs_attrs (a : attrs) {struct a} : list cinfo :=
@@ -831,6 +847,24 @@ Fixpoint refs_ns (n : nst) : list cinfo :=
   match n with NS _ _ ts subs => refs_types ts ++ refs_nsl subs end
 with refs_nsl (l : nsl) : list cinfo :=
   match l with NNil => [] | NCons n r => refs_ns n ++ refs_nsl r end.
+End Refs.
+
+(* every composite a namespace tree DEFINES, with the short name it is filed under -- the `_` pseudo types included *)
+Definition defined (ts : list (str * ty)) : list (str * cinfo) :=
+  flat_map (fun e => match comp_info (snd e) with Some c => [(fst e, c)] | None => [] end) ts.
+Fixpoint all_defined (n : nst) : list (str * cinfo) :=
+  match n with NS _ _ types subs => defined types ++ all_defined_l subs end
+with all_defined_l (l : nsl) : list (str * cinfo) :=
+  match l with NNil => [] | NCons n r => all_defined n ++ all_defined_l r end.
+
+(* what the FRONT END (pydsdl) and "generate every root that is referenced" guarantee about a referenced composite c: the type
+   it names (for the halves of a service: the service) is defined in the tree of a generated root namespace, under its own
+   short name, with that full name and version.  Whether the generator gives that definition an element is NOT part of it. *)
+Definition type_defined (roots : list nst) (c : cinfo) : Prop :=
+  exists r', In r' roots /\ ns_name r' = ti_root_ns (ci_t c) /\ seg_ok (ns_name r') = true
+             /\ exists sn c', In (sn, c') (all_defined r') /\ sn = last_component (ti_full_name (ci_t c'))
+                              /\ ti_is_array (ci_t c') = false /\ ti_full_name (ci_t c') = link_name (ci_t c)
+                              /\ ti_major (ci_t c') = ti_major (ci_t c) /\ ti_minor (ci_t c') = ti_minor (ci_t c).
 
 (* the anchor filter_url_from_type puts after '#': the tag id of the type, or of the SERVICE for its request/response halves *)
 Definition anchor_tinfo (t : tinfo) : tinfo :=
@@ -922,3 +956,9 @@ Definition w_t110 : ty := Comp {| ci_t := mk_tinfo "regc.T" "regc" 1 10; ci_depr
 Definition w_a : ty := Comp (mk_cinfo "regc.A" "regc" false) (ANested (lit "old") [] w_t11 ANil).
 Definition w_site_collision : nst := NS (lit "regc") [] [(lit "A", w_a); (lit "T", w_t11); (lit "T", w_t110)] NNil.
 Fixpoint nodup_str (l : list str) : bool := match l with [] => true | x :: r => negb (str_in x r) && nodup_str r end.
+
+(* witness for links to a type that is not listed: r/_.0.1 { uint8 v }, r/X.1.0 { r._.0.1 t } *)
+Definition w_us : ty := Comp {| ci_t := mk_tinfo "r._" "r" 0 1; ci_deprecated := false; ci_port := None; ci_union := false;
+                                ci_service := false; ci_svc_request := false; ci_doc := [] |} plain_u8.
+Definition w_x_us : ty := Comp (mk_cinfo "r.X" "r" false) (ANested (lit "t") [] w_us ANil).
+Definition w_site_us : nst := NS (lit "r") [(lit "_", []); (lit "X", [])] [(lit "_", w_us); (lit "X", w_x_us)] NNil.
